@@ -207,6 +207,9 @@ def gen_cell(rng, kind):
     return "generic", [a, a, a, 90.0, 90.0, 90.0]
 
 
+HUG = [0.3]
+
+
 def gen_shell(rng, cell, tier, scale, min_index=0):
     """-> (smin, smax) respecting the 1e-9 margin rule, or None.  min_index > 0 asks for a shell that reaches
     at least that index along every axis (used by the adjacency sweeps, where both shells must share points)"""
@@ -231,12 +234,28 @@ def gen_shell(rng, cell, tier, scale, min_index=0):
         m = rng.below(10)
         smin = 0.0 if (m < 6 or min_index) else (-0.1 if m == 6 else rng.uniform(0.0, smax * 0.9))
         allstl = O.stl_of(O.box_points(cell, smax * scale), O.recip_metric(cell))
-        if rng.chance(0.3) and len(allstl):
+        if rng.chance(HUG[0]) and len(allstl):
             # put a bound right next to a lattice value (still outside the 1e-9 clearance the quantifier asks for):
             # this is where an approximate or differently rounded sin(theta)/lambda shows
             import numpy as _np
             inside = allstl[(allstl > 0.2 * smax) & (allstl <= smax)]
-            if len(inside):
+            near = None
+            if len(inside) > 2 and rng.chance(0.5):
+                # prefer a bound BETWEEN two lattice values that are nearly, but not exactly, degenerate (almost-special
+                # cells produce them): the place where an approximated metric merges or swaps reflections
+                u = _np.unique(inside)
+                gaps = _np.diff(u) / u[1:]
+                cand = _np.nonzero((gaps > 1e-8) & (gaps < 1e-4))[0]
+                if len(cand):
+                    j = int(cand[rng.below(len(cand))])
+                    near = 0.5 * (float(u[j]) + float(u[j + 1]))
+            if near is not None:
+                if rng.chance(0.7) or smin <= 0:
+                    smax = near
+                    allstl = O.stl_of(O.box_points(cell, smax * scale), O.recip_metric(cell))
+                else:
+                    smin = min(near, smax * 0.95)
+            elif len(inside):
                 v = float(inside[rng.below(len(inside))])
                 d = rng.loguniform(1e-8, 1e-3) * (1 if rng.chance(0.5) else -1)
                 if rng.chance(0.7) or smin <= 0:
@@ -287,7 +306,11 @@ def gen_workload(rng, tier, no, cc, min_index=0):
     _, scale = kf_class(no, cc)
     for _ in range(200):
         style, cell = gen_cell(rng, kind)
-        sh = gen_shell(rng, cell, tier, scale, min_index)
+        HUG[0] = 0.8 if style in ("almostspecial", "a~b", "c~a", "nearspecial") else 0.3
+        try:
+            sh = gen_shell(rng, cell, tier, scale, min_index)
+        finally:
+            HUG[0] = 0.3
         if sh is not None:
             break
     else:
